@@ -1289,6 +1289,16 @@ func (w *Worker) convert(from, to types.Type, v Value) Value {
 	case SliceV:
 		if isString(to) {
 			bs := make([]byte, len(x))
+			nsym := 0
+			for _, e := range x {
+				if !e.(*Term).IsConst() {
+					nsym++
+				}
+			}
+			if nsym > 2 {
+				// every symbolic byte would be enumerated over its 256 values: 256^n paths
+				w.abort("unsupported", "string conversion of %d symbolic bytes at %s", nsym, w.where())
+			}
 			for i, e := range x {
 				bs[i] = byte(w.concretize(e.(*Term), "string([]byte)"))
 			}
